@@ -159,7 +159,11 @@ def parse_template(path):
                 if d == 'unit':
                     unit['name'] = toks[1]
                     if 'props' in toks:
-                        unit['props'] = toks[toks.index('props') + 1:]
+                        rest = toks[toks.index('props') + 1:]
+                        if 'also' in rest:
+                            unit['also'] = rest[rest.index('also') + 1:]
+                            rest = rest[:rest.index('also')]
+                        unit['props'] = rest
                 elif d == 'obligation':
                     oid = toks[1]
                     props = None
